@@ -1,6 +1,8 @@
 #!/usr/bin/env python3
 """Generates obligations/C01.json (job registry of property C01).  Run: python3 harness/C01/mkjobs.py"""
 import json, os, sys
+sys.path.insert(0, os.path.dirname(os.path.abspath(__file__)))
+from loopdefs import compose
 VERIF = os.path.dirname(os.path.dirname(os.path.dirname(os.path.abspath(__file__))))
 jobs = []
 
@@ -40,7 +42,7 @@ for W in (8, 16, 32, 64):
             fns = [full]
             kw = {}
             name = "r0.%s.w%d.%s" % (full, W, "cc" if cc else "port")
-            if fn in ("mult__int", "mult") and not cc and W >= 16:
+            if fn == "mult__int" and not cc and W >= 16:
                 # general Knuth-M path undecided for W >= 16 (measured): shortcut paths only
                 extra.append("VF_BN_MULT_SHORTCUT_ONLY")
                 name += ".shortcut"
@@ -52,8 +54,33 @@ for W in (8, 16, 32, 64):
                 replace = ["bn_digit_div__int"]
             unwind = (2 * W + 3) if (loopk and not cc) else (W + 2)
             job(name, "digit.c", cfg(W, cc, extra=extra), enforce=enforce, replace=replace, functions=fns,
-                route="finite", tier=tier, timeout=300,
+                route="finite", tier=tier, timeout=300, backend="kissat",
                 cbmc=["--unwind", str(unwind), "--unwinding-assertions"], **kw)
+
+# ------------------------------------------------------------------ rung 1 (a): digit arrays, unbounded safety
+def loops_file(key, fns):
+    path = os.path.join(VERIF, "loops", "bn_%s.json" % key)
+    json.dump(compose(fns), open(path, "w"), indent=1)
+    return "loops/bn_%s.json" % key
+
+R1A = {  # fn -> functions with loops reachable from it
+    "calc_digits": ["bn_digits_calc_digits"], "cmp": ["bn_digits_cmp"], "assign_zero": [],
+    "l_shift": ["bn_digits_l_shift"], "r_shift": ["bn_digits_r_shift"],
+    "add_digit": ["bn_digits_add_digit"], "add": ["bn_digits_add", "bn_digits_add_digit"],
+    "sub_digit": ["bn_digits_sub_digit"], "sub__int": ["bn_digits_sub__int", "bn_digits_sub_digit"],
+    "sub": ["bn_digits_sub__int", "bn_digits_sub_digit"]}
+SAFETY_ASSUME = ["unbounded digit-array jobs: arrays are exact-size heap objects of symbolic length <= 4096 digits; loops are closed by loop contracts (no unwinding); the cap only keeps cbmc --trace output of the reachability canary finite"]
+for W in (8, 16, 32, 64):
+    tier = "quick" if W in (8, 64) else "thorough"
+    for fn, lf in R1A.items():
+        full = "bn_digits_" + fn
+        kw = {}
+        if lf:
+            kw["loops"] = loops_file("digits_" + fn, lf)
+        job("r1a.%s.safety.w%d" % (full, W), "digits.c",
+            cfg(W, True, extra=["VF_FN_" + fn, "VF_BN_SAFETY_ONLY"]),
+            enforce=[full], functions=[full], route="unbounded", tier=tier, timeout=240,
+            assumptions=SAFETY_ASSUME, foreach=[{"SZ": W // 8}], **kw)
 
 json.dump({
     "property": "C01", "level": "proof",
